@@ -20,11 +20,15 @@ package referenceclient
 import (
 	"bytes"
 	"context"
+	"crypto/tls"
+	"encoding/binary"
 	"encoding/json"
 	"errors"
 	"fmt"
 	"hash/fnv"
 	"io"
+	"net"
+	"net/http"
 	"os"
 	"regexp"
 	"runtime"
@@ -38,6 +42,7 @@ import (
 	"connectrpc.com/conformance/internal/app/referenceserver"
 	conformancev1 "connectrpc.com/conformance/internal/gen/proto/go/connectrpc/conformance/v1"
 	"connectrpc.com/conformance/internal/verif/rep"
+	"golang.org/x/net/http2"
 	"google.golang.org/protobuf/proto"
 	"google.golang.org/protobuf/types/known/anypb"
 )
@@ -53,9 +58,18 @@ type c19sCase struct {
 	Pos         int    `json:"pos"`         // side=server, streams: index of the critically sized request (0|1)
 	Limit       int    `json:"limit"`       // side=server: the server's limit; side=client: length of the response data
 	K           int    `json:"k"`           // encoded message size minus limit: -1, 0, +1
+	// side=server-raw: a request stream of several messages sent by a plain
+	// net/http client. Stream has one letter per message: S a few bytes, - limit-1,
+	// 0 exactly the limit, + limit+1 (only as the last message).
+	Stream        string `json:"stream,omitempty"`
+	ContentLength bool   `json:"content_length,omitempty"` // the request declares its total length (otherwise chunked / unknown length)
 }
 
 func (c c19sCase) String() string {
+	if c.Side == "server-raw" {
+		return fmt.Sprintf("side=%s http=%d %s/%s/%s %s stream=[%s] content-length=%v limit=%d",
+			c.Side, c.HTTP, c.Protocol, c.Codec, c.Compression, c.Shape, c.Stream, c.ContentLength, c.Limit)
+	}
 	return fmt.Sprintf("side=%s http=%d %s/%s/%s %s pad=%s pos=%d limit|n=%d k=%+d",
 		c.Side, c.HTTP, c.Protocol, c.Codec, c.Compression, c.Shape, c.Pad, c.Pos, c.Limit, c.K)
 }
@@ -264,6 +278,32 @@ type c19sEnv struct {
 	mu      sync.Mutex
 	servers map[string]*c19sServer
 	client  *c19sClient
+	plain   map[int]*http.Client // side=server-raw: plain HTTP clients by HTTP version
+}
+
+// httpClient returns a plain net/http client: HTTP/1.1, or HTTP/2 over cleartext (prior knowledge).
+func (e *c19sEnv) httpClient(version int) *http.Client {
+	e.mu.Lock()
+	defer e.mu.Unlock()
+	if e.plain == nil {
+		e.plain = map[int]*http.Client{}
+	}
+	if c, ok := e.plain[version]; ok {
+		return c
+	}
+	var c *http.Client
+	if version == 2 {
+		c = &http.Client{Transport: &http2.Transport{
+			AllowHTTP: true,
+			DialTLSContext: func(ctx context.Context, network, addr string, _ *tls.Config) (net.Conn, error) {
+				return (&net.Dialer{}).DialContext(ctx, network, addr)
+			},
+		}}
+	} else {
+		c = &http.Client{Transport: &http.Transport{DisableCompression: true}}
+	}
+	e.plain[version] = c
+	return c
 }
 
 func (e *c19sEnv) server(httpVersion int, limit int) (*c19sServer, error) {
@@ -739,6 +779,256 @@ func c19sServerSide(env *c19sEnv, tc c19sCase) (c19sVerdict, error) {
 	return verdict, nil
 }
 
+// ---------------------------------------------------------------------------
+// side=server-raw: request streams of several messages, sent by a plain HTTP client
+
+type c19sOpaqueReader struct{ r io.Reader } // hides the length of the body from net/http
+
+func (o c19sOpaqueReader) Read(p []byte) (int, error) { return o.r.Read(p) }
+
+func c19sEnvelope(flags byte, payload []byte) []byte {
+	out := make([]byte, 5, 5+len(payload))
+	out[0] = flags
+	binary.BigEndian.PutUint32(out[1:], uint32(len(payload)))
+	return append(out, payload...)
+}
+
+// c19sRawSide: the limit is per MESSAGE. A client-stream / half-duplex bidi
+// stream of 2-3 messages, each within the server's limit, is accepted whatever
+// the total size of the request body is and whether or not the request declares
+// that total (Content-Length) - a client that buffers the stream, a proxy that
+// de-chunks it or a hand-written request does -; a last message of limit+1
+// bytes is rejected with resource_exhausted.
+func c19sRawSide(env *c19sEnv, tc c19sCase) (c19sVerdict, error) {
+	srv, err := env.server(tc.HTTP, tc.Limit)
+	if err != nil {
+		return c19sVerdict{}, err
+	}
+	respData := [][]byte{[]byte("ok")}
+	var msgs []proto.Message
+	var sizes []int
+	var body []byte
+	overLimit := false
+	for i, letter := range tc.Stream {
+		var msg proto.Message
+		switch letter {
+		case 'S':
+			msg = c19sRequest(tc.Shape, i == 0, respData, []byte("fill"), "")
+		case '-', '0', '+':
+			target := tc.Limit + map[rune]int{'-': -1, '0': 0, '+': 1}[letter]
+			msg = c19sSized("proto", tc.Shape, i == 0, respData, tc.Pad, target)
+			if msg == nil {
+				return c19sVerdict{Outcome: "size-unreachable"}, nil
+			}
+			overLimit = overLimit || letter == '+'
+		default:
+			return c19sVerdict{}, fmt.Errorf("harness: bad stream letter %q", letter)
+		}
+		raw, err := proto.Marshal(msg)
+		if err != nil {
+			return c19sVerdict{}, err
+		}
+		msgs = append(msgs, msg)
+		sizes = append(sizes, len(raw))
+		body = append(body, c19sEnvelope(0, raw)...)
+	}
+	method := map[string]string{"client-stream": "ClientStream", "bidi-half": "BidiStream"}[tc.Shape]
+	if method == "" {
+		return c19sVerdict{}, fmt.Errorf("harness: shape %s has no request stream", tc.Shape)
+	}
+	url := fmt.Sprintf("http://%s/%s/%s", net.JoinHostPort(srv.host, fmt.Sprint(srv.port)), internal.ConformanceServiceName, method)
+	var reader io.Reader = bytes.NewReader(body)
+	if !tc.ContentLength {
+		reader = c19sOpaqueReader{reader}
+	}
+	req, err := http.NewRequest(http.MethodPost, url, reader)
+	if err != nil {
+		return c19sVerdict{}, err
+	}
+	if tc.ContentLength {
+		req.ContentLength = int64(len(body))
+	} else {
+		req.ContentLength = -1
+	}
+	protocol, httpVersion := conformancev1.Protocol_PROTOCOL_CONNECT, conformancev1.HTTPVersion_HTTP_VERSION_1
+	if tc.HTTP == 2 {
+		httpVersion = conformancev1.HTTPVersion_HTTP_VERSION_2
+	}
+	switch tc.Protocol {
+	case "connect":
+		req.Header.Set("Content-Type", "application/connect+proto")
+		req.Header.Set("Connect-Protocol-Version", "1")
+	case "grpcweb":
+		protocol = conformancev1.Protocol_PROTOCOL_GRPC_WEB
+		req.Header.Set("Content-Type", "application/grpc-web+proto")
+		req.Header.Set("X-Grpc-Web", "1")
+	default:
+		return c19sVerdict{}, fmt.Errorf("harness: protocol %s is not built by hand", tc.Protocol)
+	}
+	nameHash := fnv.New32a()
+	_, _ = nameHash.Write([]byte(tc.String()))
+	req.Header.Set("X-Test-Case-Name", fmt.Sprintf("c19/%08x", nameHash.Sum32()))
+	req.Header.Set("X-Expect-Http-Version", fmt.Sprint(int(httpVersion)))
+	req.Header.Set("X-Expect-Http-Method", http.MethodPost)
+	req.Header.Set("X-Expect-Protocol", fmt.Sprint(int(protocol)))
+	req.Header.Set("X-Expect-Codec", fmt.Sprint(int(conformancev1.Codec_CODEC_PROTO)))
+	req.Header.Set("X-Expect-Compression", fmt.Sprint(int(conformancev1.Compression_COMPRESSION_IDENTITY)))
+	req.Header.Set("X-Expect-Tls", "false")
+	resp, err := env.httpClient(tc.HTTP).Do(req)
+	if err != nil {
+		return c19sVerdict{}, fmt.Errorf("plain HTTP client: %w", err)
+	}
+	raw, err := io.ReadAll(resp.Body)
+	_ = resp.Body.Close()
+	if err != nil {
+		return c19sVerdict{}, fmt.Errorf("plain HTTP client, reading the response: %w", err)
+	}
+
+	// what the server answered
+	class, message := "", ""
+	var echoed []*anypb.Any
+	grpcStatus, grpcMessage := resp.Header.Get("Grpc-Status"), resp.Header.Get("Grpc-Message")
+	sawEnd := false
+	if resp.StatusCode != http.StatusOK {
+		class, message = fmt.Sprintf("http-status-%d", resp.StatusCode), string(raw[:min(len(raw), 200)])
+	}
+	for rest := raw; class == "" && len(rest) > 0; {
+		if len(rest) < 5 || len(rest) < 5+int(binary.BigEndian.Uint32(rest[1:5])) {
+			class, message = "malformed-response", fmt.Sprintf("%q", raw[:min(len(raw), 200)])
+			break
+		}
+		flags, payload := rest[0], rest[5:5+int(binary.BigEndian.Uint32(rest[1:5]))]
+		rest = rest[5+len(payload):]
+		switch {
+		case tc.Protocol == "connect" && flags&2 != 0:
+			sawEnd = true
+			var end struct {
+				Error *struct {
+					Code    string `json:"code"`
+					Message string `json:"message"`
+				} `json:"error"`
+			}
+			if err := json.Unmarshal(payload, &end); err != nil {
+				class, message = "malformed-response", "end-of-stream message: "+err.Error()
+			} else if end.Error != nil {
+				class, message = "error:"+end.Error.Code, end.Error.Message
+			}
+		case tc.Protocol == "grpcweb" && flags&0x80 != 0:
+			sawEnd = true
+			for _, line := range strings.Split(string(payload), "\r\n") {
+				if k, v, ok := strings.Cut(line, ":"); ok {
+					switch strings.ToLower(strings.TrimSpace(k)) {
+					case "grpc-status":
+						grpcStatus = strings.TrimSpace(v)
+					case "grpc-message":
+						grpcMessage = strings.TrimSpace(v)
+					}
+				}
+			}
+		default:
+			var payloadMsg *conformancev1.ConformancePayload
+			if tc.Shape == "client-stream" {
+				out := &conformancev1.ClientStreamResponse{}
+				if err := proto.Unmarshal(payload, out); err != nil {
+					class, message = "malformed-response", err.Error()
+				}
+				payloadMsg = out.GetPayload()
+			} else {
+				out := &conformancev1.BidiStreamResponse{}
+				if err := proto.Unmarshal(payload, out); err != nil {
+					class, message = "malformed-response", err.Error()
+				}
+				payloadMsg = out.GetPayload()
+			}
+			echoed = append(echoed, payloadMsg.GetRequestInfo().GetRequests()...)
+		}
+	}
+	if class == "" && tc.Protocol == "grpcweb" {
+		switch grpcStatus {
+		case "0":
+		case "":
+			class, message = "malformed-response", "no grpc-status"
+		case "8":
+			class, message = "error:resource_exhausted", grpcMessage
+		default:
+			class, message = "error:grpc-status-"+grpcStatus, grpcMessage
+		}
+	}
+	if class == "" && tc.Protocol == "connect" && !sawEnd {
+		class, message = "malformed-response", "no end-of-stream message"
+	}
+	if class == "" {
+		class = "accepted"
+	}
+
+	total := len(body)
+	describe := func(what string) string {
+		return fmt.Sprintf("%s: %s: server message_receive_limit=%d; the request stream has %d messages of %v bytes (each envelope 5 bytes more, request body %d bytes in total, Content-Length declared: %v); observed %s %q",
+			what, tc, tc.Limit, len(msgs), sizes, total, tc.ContentLength, class, message)
+	}
+	verdict := c19sVerdict{}
+	switch {
+	case class == "accepted" && !overLimit:
+		if len(echoed) != len(msgs) {
+			verdict.Key = "accepted-but-incomplete:server"
+			verdict.Detail = describe(fmt.Sprintf("RPC succeeded but the server echoes %d requests (want %d)", len(echoed), len(msgs)))
+			verdict.Outcome = "ACCEPTED-INCOMPLETE"
+			return verdict, nil
+		}
+		for i, msg := range msgs {
+			got, err := echoed[i].UnmarshalNew()
+			if err != nil || !proto.Equal(got, msg) {
+				verdict.Key = "accepted-but-incomplete:server"
+				verdict.Detail = describe(fmt.Sprintf("echoed request #%d differs from what was sent", i+1))
+				verdict.Outcome = "ACCEPTED-ALTERED"
+				return verdict, nil
+			}
+		}
+		verdict.Outcome = "accepted"
+	case class == "error:resource_exhausted" && overLimit:
+		verdict.Outcome = "resource_exhausted"
+	case class == "accepted" && overLimit:
+		verdict.Key = "limit-not-sharp:server:" + tc.Compression
+		verdict.Detail = describe("a stream whose last message is one byte over the limit was accepted")
+		verdict.Outcome = "OVER-LIMIT-ACCEPTED"
+	case class == "error:resource_exhausted" && !overLimit:
+		verdict.Key = "limit-not-per-message:server"
+		verdict.Detail = describe("every message of the stream is within the limit, yet the stream was rejected with resource_exhausted")
+		verdict.Outcome = "WITHIN-LIMIT-STREAM-REJECTED"
+	default:
+		verdict.Key = "limit-wrong-code:server"
+		want := "success"
+		if overLimit {
+			want = "resource_exhausted"
+		}
+		verdict.Detail = describe("expected " + want)
+		verdict.Outcome = "WRONG-CODE/" + class
+	}
+	return verdict, nil
+}
+
+// c19sRawStreams: every stream of 2 and 3 messages over {S, -, 0} whose last
+// message may also be + (12 + 36).
+func c19sRawStreams() []string {
+	var out []string
+	for n := 2; n <= 3; n++ {
+		var rec func(prefix string)
+		rec = func(prefix string) {
+			if len(prefix) == n-1 {
+				for _, last := range "S-0+" {
+					out = append(out, prefix+string(last))
+				}
+				return
+			}
+			for _, l := range "S-0" {
+				rec(prefix + string(l))
+			}
+		}
+		rec("")
+	}
+	return out
+}
+
 func c19sResponseMessage(shape string, payload *conformancev1.ConformancePayload) proto.Message {
 	switch shape {
 	case "unary":
@@ -881,8 +1171,11 @@ func c19sClientSide(env *c19sEnv, tc c19sCase) (c19sVerdict, error) {
 }
 
 func c19sRun(env *c19sEnv, tc c19sCase) (c19sVerdict, error) {
-	if tc.Side == "client" {
+	switch tc.Side {
+	case "client":
 		return c19sClientSide(env, tc)
+	case "server-raw":
+		return c19sRawSide(env, tc)
 	}
 	return c19sServerSide(env, tc)
 }
@@ -914,6 +1207,28 @@ func c19sEnumerate(thorough bool, visit func(tc c19sCase) bool) {
 		clientShapes = append(clientShapes, "idempotent-unary")
 		serverLimits = []int{1024, 200, 128, 16384, 200 * 1024}
 		clientSizes = []int{4000, 64, 16384, 210 * 1024}
+	}
+	// request streams of several messages from a plain HTTP client (cheap: first)
+	rawLimits := []int{1024, 200}
+	if thorough {
+		rawLimits = []int{1024, 200, 128, 16384}
+	}
+	for _, limit := range rawLimits {
+		for _, w := range []wire{{"connect", 1}, {"connect", 2}, {"grpcweb", 1}, {"grpcweb", 2}} {
+			for _, shape := range []string{"client-stream", "bidi-half"} {
+				for _, stream := range c19sRawStreams() {
+					for _, withLength := range []bool{true, false} {
+						tc := c19sCase{
+							Side: "server-raw", HTTP: w.http, Protocol: w.protocol, Codec: "proto", Compression: "identity",
+							Shape: shape, Pad: "zeros", Limit: limit, Stream: stream, ContentLength: withLength,
+						}
+						if !visit(tc) {
+							return
+						}
+					}
+				}
+			}
+		}
 	}
 	for _, side := range []string{"server", "client"} {
 		shapes, limits := serverShapes, serverLimits
@@ -976,7 +1291,9 @@ func TestVerifC19Sharp(t *testing.T) {
 	r.Rule = "case = (side server|client, HTTP/1.1|h2c, protocol (3), codec (2), compression (6), RPC shape, padding compressible|incompressible, " +
 		"position of the critical request, limit, k = message size - limit in {-1,0,+1}); side=server: real client sends a request of encoded size limit+k " +
 		"to the real server with that limit; side=client: the limit of the real client is (encoded size of the largest response) - k; every tuple is distinct; " +
-		"non-trivial = every case (each one sits on the boundary: |k| <= 1)"
+		"non-trivial = every case (each one sits on the boundary: |k| <= 1); " +
+		"side=server-raw: a plain net/http client (HTTP/1.1 and h2c) sends hand-built Connect-streaming and gRPC-Web request streams (client-stream, half-duplex bidi) of 2 and 3 messages, " +
+		"every message one of {a few bytes, limit-1, limit} and the last one also limit+1 (48 streams), with and without a declared Content-Length: accepted with every request echoed iff no message exceeds the limit, else resource_exhausted"
 
 	env := &c19sEnv{servers: map[string]*c19sServer{}, client: c19sStartClient()}
 	defer env.shutdown()
@@ -1046,7 +1363,11 @@ func TestVerifC19Sharp(t *testing.T) {
 		}
 		r.Eval(1)
 		r.NonTrivial("")
-		r.Outcome(fmt.Sprintf("%s:k=%+d:%s", tc.Side, tc.K, verdict.Outcome))
+		if tc.Side == "server-raw" {
+			r.Outcome(fmt.Sprintf("%s:content-length=%v:%s", tc.Side, tc.ContentLength, verdict.Outcome))
+		} else {
+			r.Outcome(fmt.Sprintf("%s:k=%+d:%s", tc.Side, tc.K, verdict.Outcome))
+		}
 		r.Count("cases:"+tc.Side, 1)
 		r.Count("cases:"+tc.Side+":"+tc.Compression, 1)
 		if tc.Compression != "identity" {
